@@ -45,6 +45,8 @@ def main():
             dest.mkdir(parents=True)
             shutil.copy(d / "patch.diff", dest / "patch.diff")
             shutil.copy(d / "demo.py", dest / "demo.py")
+            if (d / "refactor_ok.diff").exists():
+                shutil.copy(d / "refactor_ok.diff", dest / "refactor_ok.diff")
             meta = json.loads((d / "meta.json").read_text()) if (d / "meta.json").exists() else {}
             meta.update({
                 "property": prop,
